@@ -32,7 +32,7 @@ import sys
 assert sys.version_info >= (3, 0)  # Bomb out if not running Python3
 
 
-import operator, time, traceback, uuid, fnmatch, opentracing
+import operator, re, time, traceback, uuid, opentracing
 
 from datetime import datetime, timezone, timedelta
 from aioprometheus import Counter, Histogram
@@ -2253,11 +2253,18 @@ class StateEngine(object):
                     return next_if(variable, operator.le, value, str)
 
                 def asl_choice_StringMatches(value):
-                    # https://docs.python.org/3/library/fnmatch.html
-                    # Change the \ escape to fnmatch [seq] escape and also
-                    # escape [ to allow things like a literal [hello]
-                    value = value.replace("[", "[[]").replace("\\*", "[*]")
-                    if fnmatch.fnmatch(variable, value):
+                    # "*" matches zero or more characters, "\*" is a literal
+                    # "*" and "\\" a literal "\". No other character has any
+                    # special meaning, so translate to a regex rather than
+                    # using fnmatch (where "?" and "[seq]" are wildcards).
+                    regex = "".join(
+                        ".*" if token == "*" else re.escape(token[-1])
+                        for token in re.findall(r"\\[*\\]|.", value, re.DOTALL)
+                    )
+                    if (
+                        isinstance(variable, str)
+                        and re.fullmatch(regex, variable, re.DOTALL)
+                    ):
                         return next
 
                 def asl_choice_TimestampEquals(value):
